@@ -43,6 +43,7 @@ def _c04(ctx):
     lazy.rule_lazy_chain(ctx)
     lazy.rule_lazy_caches(ctx)
     lazy.rule_lazy_preserve(ctx)
+    lazy.rule_lazy_latch(ctx)
     pair.rule_shadow(ctx)
     pair.rule_newdelete(ctx)
 
@@ -172,7 +173,7 @@ PROPS = {
                        "the dependent results invalidated on every normal exit, plus inductiveness of the flag invariant. "
                        "For LocalNetwork and g3::Model the invalidation cascade (update(stage) resets that and all later flags) and the stage chain "
                        "(every stage function runs the previous stage when it is not established and marks its own stage done; consumers run "
-                       "their stage first) are decided. CACHE (cache indexes erased when their inputs change), PRESERVE (reset keeps the regularisation subset), R-PAIR P2 (no dangling owner after delete) and L3 (no field shadowed where its role is needed) are decided too. The roles (flag -> fields) are frozen in sa/tables/lazy.json. History independence of the numbers "
+                       "their stage first) are decided. CACHE (cache indexes erased when their inputs change), PRESERVE (reset keeps the regularisation subset), LATCH (no boolean state member of a re-usable solver object can only move one way), R-PAIR P2 (no dangling owner after delete) and L3 (no field shadowed where its role is needed) are decided too. The roles (flag -> fields) are frozen in sa/tables/lazy.json. History independence of the numbers "
                        "themselves is not decided - only that no query can observe a stale or not-yet-computed field.",
     },
     "C11": {
